@@ -21,6 +21,7 @@ from liquid2.builtin import StringLiteral
 from liquid2.builtin import parse_keyword_arguments
 from liquid2.builtin import parse_primitive
 from liquid2.builtin import parse_string_or_identifier
+from liquid2.builtin import string_or_identifier_str
 from liquid2.exceptions import LiquidSyntaxError
 from liquid2.exceptions import TemplateNotFoundError
 
@@ -69,7 +70,7 @@ class RenderNode(Node):
                 var = f" with {self.var}"
 
         if self.alias:
-            var += f" as {self.alias}"
+            var += f" as {string_or_identifier_str(self.alias)}"
         if self.args:
             var += ","
         args = " " + ", ".join(str(arg) for arg in self.args) if self.args else ""
